@@ -571,8 +571,16 @@ class ModelMixin:
 
     def str_method(self, recv, name, args, kwargs, st, line):
         if isinstance(recv, str) and all(isinstance(a, (str, int)) for a in args) and name in (
-                'replace', 'upper', 'lower', 'startswith', 'endswith', 'format', 'strip', 'split'):
-            return [ok(getattr(recv, name)(*args), st)]
+                'replace', 'upper', 'lower', 'startswith', 'endswith', 'format', 'strip', 'split', 'title', 'capitalize',
+                'lstrip', 'rstrip', 'rsplit', 'isdigit'):
+            r = getattr(recv, name)(*args)
+            if isinstance(r, list):
+                r = st.alloc(HObj('list', items=list(r)))
+            return [ok(r, st)]
+        if isinstance(recv, str) and name == 'join' and len(args) == 1:
+            seq = self.concrete_iterable(args[0], st)
+            if seq is not None and all(isinstance(x, str) for x in seq):
+                return [ok(recv.join(seq), st)]
         if name == 'replace' and is_sym(recv) and z3.is_string(recv) and all(isinstance(a, str) for a in args) and len(args) == 2:
             # z3 str.replace replaces the first occurrence; equal to Python's replace-all when the
             # pattern occurs at most once -- obligation
